@@ -5,7 +5,7 @@ use air_interpreter_sede::{FromSerialized, ToSerialized};
 use serde_json::Value;
 use std::collections::{BTreeMap, HashMap};
 
-#[derive(Clone, Debug)]
+#[derive(Clone, Debug, serde::Serialize, serde::Deserialize)]
 pub struct Limits {
     pub air: u64,
     pub particle: u64,
@@ -19,11 +19,11 @@ impl Default for Limits {
     }
 }
 
-#[derive(Clone, Debug)]
+#[derive(Clone, Debug, serde::Serialize, serde::Deserialize)]
 pub enum CallResultsIn {
     /// id (as string key) -> (ret_code, result string)
     Map(BTreeMap<String, (i32, String)>),
-    Raw(Vec<u8>),
+    Raw(#[serde(with = "b64")] Vec<u8>),
 }
 
 impl CallResultsIn {
@@ -35,13 +35,16 @@ impl CallResultsIn {
     }
 }
 
-#[derive(Clone, Debug)]
+#[derive(Clone, Debug, serde::Serialize, serde::Deserialize)]
 pub struct RunInput {
     pub air: String,
+    #[serde(with = "b64")]
     pub prev: Vec<u8>,
+    #[serde(with = "b64")]
     pub cur: Vec<u8>,
     pub init_peer_id: String,
     pub peer_id: String,
+    #[serde(with = "b64")]
     pub secret: Vec<u8>,
     pub particle_id: String,
     pub timestamp: u64,
@@ -116,6 +119,46 @@ pub fn decode_requests(raw: &[u8]) -> Result<BTreeMap<u32, CallRequest>, String>
     Ok(out)
 }
 
+/// pseudo ret_code reported when the interpreter panicked (caught by the harness)
+pub const PANIC_CODE: i64 = -777;
+
+thread_local! {
+    pub static LAST_PANIC: std::cell::RefCell<Option<(String, String)>> = std::cell::RefCell::new(None);
+}
+
+pub fn install_panic_hook() {
+    static ONCE: std::sync::Once = std::sync::Once::new();
+    ONCE.call_once(|| {
+        let verbose = std::env::var("VCHECK_PANIC_VERBOSE").is_ok();
+        let default = std::panic::take_hook();
+        std::panic::set_hook(Box::new(move |info| {
+            let loc = info.location().map(|l| format!("{}:{}", l.file(), l.line())).unwrap_or_else(|| "?".into());
+            let msg = if let Some(s) = info.payload().downcast_ref::<&str>() {
+                s.to_string()
+            } else if let Some(s) = info.payload().downcast_ref::<String>() {
+                s.clone()
+            } else {
+                "?".into()
+            };
+            let in_harness = loc.contains("/verif/") || loc.starts_with("src/");
+            LAST_PANIC.with(|p| *p.borrow_mut() = Some((loc, msg)));
+            if verbose || in_harness {
+                default(info);
+            }
+        }));
+    });
+}
+
+/// Run any closure under the panic capture; Err((location, message)) on panic.
+pub fn guarded<T>(f: impl FnOnce() -> T) -> Result<T, (String, String)> {
+    install_panic_hook();
+    LAST_PANIC.with(|p| p.borrow_mut().take());
+    match std::panic::catch_unwind(std::panic::AssertUnwindSafe(f)) {
+        Ok(v) => Ok(v),
+        Err(_) => Err(LAST_PANIC.with(|p| p.borrow_mut().take()).unwrap_or_else(|| ("?".into(), "?".into()))),
+    }
+}
+
 thread_local! {
     pub static RUNS: std::cell::Cell<u64> = std::cell::Cell::new(0);
 }
@@ -144,7 +187,25 @@ pub fn invoke(input: &RunInput) -> RunOutcome {
         call_result_size_limit: input.limits.call_result,
         hard_limit_enabled: input.limits.hard,
     };
-    let o = air::execute_air(input.air.clone(), input.prev.clone(), input.cur.clone(), params, call_results);
+    install_panic_hook();
+    LAST_PANIC.with(|p| p.borrow_mut().take());
+    let (air, prev, cur) = (input.air.clone(), input.prev.clone(), input.cur.clone());
+    let res = std::panic::catch_unwind(std::panic::AssertUnwindSafe(move || air::execute_air(air, prev, cur, params, call_results)));
+    let o = match res {
+        Ok(o) => o,
+        Err(_) => {
+            let loc = LAST_PANIC.with(|p| p.borrow_mut().take()).unwrap_or_else(|| ("?".into(), "?".into()));
+            return RunOutcome {
+                ret_code: PANIC_CODE,
+                error_message: format!("PANIC at {} :: {}", loc.0, loc.1),
+                data: vec![],
+                next_peers: vec![],
+                call_requests_raw: vec![],
+                requests: Ok(BTreeMap::new()),
+                flags: (false, false, false),
+            };
+        }
+    };
     let requests = decode_requests(&o.call_requests);
     RunOutcome {
         ret_code: o.ret_code,
@@ -175,5 +236,17 @@ pub fn classify(code: i64) -> CodeClass {
         20000..=29999 => CodeClass::Uncatchable,
         30000 => CodeClass::Farewell,
         _ => CodeClass::Other,
+    }
+}
+
+pub mod b64 {
+    use base64::Engine;
+    use serde::{Deserialize, Deserializer, Serializer};
+    pub fn serialize<S: Serializer>(v: &Vec<u8>, s: S) -> Result<S::Ok, S::Error> {
+        s.serialize_str(&base64::engine::general_purpose::STANDARD.encode(v))
+    }
+    pub fn deserialize<'de, D: Deserializer<'de>>(d: D) -> Result<Vec<u8>, D::Error> {
+        let s = String::deserialize(d)?;
+        base64::engine::general_purpose::STANDARD.decode(s.as_bytes()).map_err(serde::de::Error::custom)
     }
 }
